@@ -222,6 +222,8 @@ structure SimW (P : Nat) (c1 c2 : Ctx) : Prop where
   position : c2.position = c1.position
   buf : Agree P c1.buf c2.buf
   inb : P < c1.buf.length
+  blen : c1.buf.length = c1.bufLen
+  pos : c1.position ≤ P
   regs : SameRegs c1.regs c2.regs
   eq : SameQueue c1.eq c2.eq
 
@@ -258,7 +260,7 @@ theorem pushError_simW {P : Nat} {c1 c2 : Ctx} (h : SimW P c1 c2) (code : Int) (
     SimW P (pushError c1 code info n) (pushError c2 code info n) := by
   rw [pushError_eq, pushError_eq]
   have hq := push_sameQueue c1.eq c2.eq h.eq c1.withInfo code info n true
-  refine ⟨h.cmds, h.choices, h.withInfo, h.bufLen, h.position, h.buf, h.inb, ?_, ?_⟩
+  refine ⟨h.cmds, h.choices, h.withInfo, h.bufLen, h.position, h.buf, h.inb, h.blen, h.pos, ?_, ?_⟩
   · exact errPush_sameRegs _ _ h.regs code
   · show SameQueue _ (c2.eq.push c2.withInfo code info n true).1
     rw [h.withInfo]; exact hq.2
@@ -330,12 +332,12 @@ theorem parameter_eq (c : Ctx) (mand : Bool) :
 
 theorem Sim.setParam {P : Nat} {c1 c2 : Ctx} (h : Sim P c1 c2) {n1 n2 p1 p2 : Nat} (hn : n2 = n1) (hp : p2 = p1) :
     Sim P { c1 with inputCount := n1, ppos := p1 } { c2 with inputCount := n2, ppos := p2 } :=
-  ⟨⟨h.w.cmds, h.w.choices, h.w.withInfo, h.w.bufLen, h.w.position, h.w.buf, h.w.inb, h.w.regs, h.w.eq⟩,
+  ⟨⟨h.w.cmds, h.w.choices, h.w.withInfo, h.w.bufLen, h.w.position, h.w.buf, h.w.inb, h.w.blen, h.w.pos, h.w.regs, h.w.eq⟩,
    ⟨h.l.cmdError, hn, h.l.pbase, h.l.plen, hp, h.l.cur, h.l.rawOff, h.l.rawLen, h.l.out, h.l.win, h.l.raw⟩⟩
 
 theorem Sim.setPpos {P : Nat} {c1 c2 : Ctx} (h : Sim P c1 c2) {p1 p2 : Nat} (hp : p2 = p1) :
     Sim P { c1 with ppos := p1 } { c2 with ppos := p2 } :=
-  ⟨⟨h.w.cmds, h.w.choices, h.w.withInfo, h.w.bufLen, h.w.position, h.w.buf, h.w.inb, h.w.regs, h.w.eq⟩,
+  ⟨⟨h.w.cmds, h.w.choices, h.w.withInfo, h.w.bufLen, h.w.position, h.w.buf, h.w.inb, h.w.blen, h.w.pos, h.w.regs, h.w.eq⟩,
    ⟨h.l.cmdError, h.l.inputCount, h.l.pbase, h.l.plen, hp, h.l.cur, h.l.rawOff, h.l.rawLen, h.l.out, h.l.win, h.l.raw⟩⟩
 
 theorem pgo_sim {P : Nat} {c1 c2 : Ctx} (h : Sim P c1 c2) (rel : Nat) : RR P c1 c2 (pgo c1 rel) (pgo c2 rel) := by
@@ -641,12 +643,12 @@ theorem paramNumber_sim {P : Nat} {c1 c2 : Ctx} (h : Sim P c1 c2) (m : Bool) :
 /-! ## handler scripts -/
 
 theorem Sim.emit {P : Nat} {c1 c2 : Ctx} (h : Sim P c1 c2) (e1 e2 : Ev) : Sim P (emit c1 e1) (emit c2 e2) :=
-  ⟨⟨h.w.cmds, h.w.choices, h.w.withInfo, h.w.bufLen, h.w.position, h.w.buf, h.w.inb, h.w.regs, h.w.eq⟩,
+  ⟨⟨h.w.cmds, h.w.choices, h.w.withInfo, h.w.bufLen, h.w.position, h.w.buf, h.w.inb, h.w.blen, h.w.pos, h.w.regs, h.w.eq⟩,
    ⟨h.l.cmdError, h.l.inputCount, h.l.pbase, h.l.plen, h.l.ppos, h.l.cur, h.l.rawOff, h.l.rawLen, h.l.out, h.l.win, h.l.raw⟩⟩
 
 theorem Sim.setOut {P : Nat} {c1 c2 : Ctx} (h : Sim P c1 c2) {o1 o2 : Out} (ho : OutSim o1 o2) :
     Sim P { c1 with out := o1 } { c2 with out := o2 } :=
-  ⟨⟨h.w.cmds, h.w.choices, h.w.withInfo, h.w.bufLen, h.w.position, h.w.buf, h.w.inb, h.w.regs, h.w.eq⟩,
+  ⟨⟨h.w.cmds, h.w.choices, h.w.withInfo, h.w.bufLen, h.w.position, h.w.buf, h.w.inb, h.w.blen, h.w.pos, h.w.regs, h.w.eq⟩,
    ⟨h.l.cmdError, h.l.inputCount, h.l.pbase, h.l.plen, h.l.ppos, h.l.cur, h.l.rawOff, h.l.rawLen, ho, h.l.win, h.l.raw⟩⟩
 
 /-- related handler states -/
@@ -843,7 +845,7 @@ theorem Step.fields {c1 c2 c1' c2' : Ctx} (h1 : c1'.events = c1.events) (h2 : c1
 
 theorem pcReset_sim {P : Nat} {c1 c2 : Ctx} (hw : SimW P c1 c2) (hu : LiveU P c1 c2) :
     Sim P (pcReset c1) (pcReset c2) ∧ Step c1 c2 (pcReset c1) (pcReset c2) :=
-  ⟨⟨⟨hw.cmds, hw.choices, hw.withInfo, hw.bufLen, hw.position, hw.buf, hw.inb, hw.regs, hw.eq⟩,
+  ⟨⟨⟨hw.cmds, hw.choices, hw.withInfo, hw.bufLen, hw.position, hw.buf, hw.inb, hw.blen, hw.pos, hw.regs, hw.eq⟩,
     ⟨rfl, rfl, hu.pbase, hu.plen, hu.ppos, hu.cur, hu.rawOff, hu.rawLen, hu.out.reset, hu.win, hu.raw⟩⟩,
    Step.fields rfl rfl rfl rfl rfl rfl⟩
 
@@ -912,5 +914,398 @@ theorem processCommand_sim {P : Nat} {c1 c2 : Ctx} (hw : SimW P c1 c2) (hu : Liv
   rw [processCommand_eq, processCommand_eq]
   obtain ⟨a, b⟩ := pcReset_sim hw hu
   exact pcTail_sim (RR.trans b (pcBody_sim a))
+
+theorem unit_reset (c : Ctx) :
+    let c' := { c with cmdError := true, inputCount := 7, out := { c.out with outputCount := 5, arbRemaining := 9 } }
+    newObs c (processCommand c).1 = newObs c' (processCommand c').1 ∧
+    (processCommand c).2 = (processCommand c').2 := by
+  intro c'
+  have e : processCommand c' = processCommand c := by
+    rw [processCommand_eq, processCommand_eq]; rfl
+  rw [e]
+  exact ⟨rfl, rfl⟩
+
+/-! ## in-place composition of compound headers -/
+
+theorem find?_congr' {α : Type} {p q : α → Bool} : ∀ (l : List α), (∀ x ∈ l, p x = q x) → l.find? p = l.find? q := by
+  intro l
+  induction l with
+  | nil => intro _; rfl
+  | cons a t ih =>
+    intro h
+    simp only [List.find?_cons, h a (List.mem_cons_self)]
+    split
+    · rfl
+    · exact ih (fun x hx => h x (List.mem_cons_of_mem _ hx))
+
+theorem Agree.foldl_set {P : Nat} {α : Type} (g : α → Nat) (v : α → UInt8) :
+    ∀ (l : List α) (b1 b2 : Bytes), Agree P b1 b2 → (∀ a ∈ l, g a < P) →
+      Agree P (l.foldl (fun b a => b.set (g a) (v a)) b1) (l.foldl (fun b a => b.set (g a) (v a)) b2) := by
+  intro l
+  induction l with
+  | nil => intro b1 b2 h _; exact h
+  | cons a l ih =>
+    intro b1 b2 h hl
+    rw [List.foldl_cons, List.foldl_cons]
+    exact ih _ _ (h.set _ _ (hl a (List.mem_cons_self))) (fun a' h' => hl a' (List.mem_cons_of_mem _ h'))
+
+theorem Agree.store {P : Nat} {b1 b2 : Bytes} (h : Agree P b1 b2) (src : Bytes) (start : Nat)
+    (hb : start + src.length ≤ P) :
+    Agree P ((src.zipIdx).foldl (fun b (x, k) => b.set (start + k) x) b1)
+            ((src.zipIdx).foldl (fun b (x, k) => b.set (start + k) x) b2) := by
+  apply Agree.foldl_set (fun (p : UInt8 × Nat) => start + p.2) (fun p => p.1) src.zipIdx b1 b2 h
+  intro a ha
+  have := List.snd_lt_of_mem_zipIdx ha
+  show start + a.2 < P
+  omega
+
+theorem composeCompound_agree {P : Nat} {b1 b2 : Bytes} (h : Agree P b1 b2) (prev : Option (Nat × Nat))
+    (cur : Nat × Nat) (hcur : cur.1 ≤ P) (hprev : ∀ pp pl, prev = some (pp, pl) → pp + pl ≤ cur.1) :
+    (Match.composeCompound b1 prev cur).2 = (Match.composeCompound b2 prev cur).2 ∧
+    Agree P (Match.composeCompound b1 prev cur).1 (Match.composeCompound b2 prev cur).1 := by
+  unfold Match.composeCompound
+  by_cases h0 : (cur.2 == 0) = true
+  · simp only [h0, ↓reduceIte]; exact ⟨by first | trivial | rfl, h⟩
+  · simp only [h0, ↓reduceIte]
+    cases prev with
+    | none => exact ⟨by first | trivial | rfl, h⟩
+    | some p =>
+      obtain ⟨pp, pl⟩ := p
+      have hp := hprev pp pl rfl
+      simp only []
+      have e1 : Match.rd b2 cur.1 = Match.rd b1 cur.1 := (h.mrd hcur).symm
+      have e2 : Match.rd b2 pp = Match.rd b1 pp := (h.mrd (by omega)).symm
+      have e3 : (List.range pl).reverse.find? (fun k => Match.rd b2 (pp + k) == 58) =
+          (List.range pl).reverse.find? (fun k => Match.rd b1 (pp + k) == 58) := by
+        apply find?_congr'
+        intro k hk
+        simp only [List.mem_reverse, List.mem_range] at hk
+        rw [h.mrd (i := pp + k) (by omega)]
+      rw [e1, e2, e3]
+      by_cases h1 : (pl == 0) = true
+      · simp only [h1, ↓reduceIte]; exact ⟨by first | trivial | rfl, h⟩
+      · simp only [h1, ↓reduceIte]
+        by_cases h2 : Match.rd b1 cur.1 == 42 ∨ Match.rd b1 cur.1 == 58
+        · simp only [h2, ↓reduceIte]; exact ⟨by first | trivial | rfl, h⟩
+        · simp only [h2, ↓reduceIte]
+          by_cases h3 : (Match.rd b1 pp == 42) = true
+          · simp only [h3, ↓reduceIte]; exact ⟨by first | trivial | rfl, h⟩
+          · simp only [h3, ↓reduceIte]
+            cases hf : (List.range pl).reverse.find? (fun k => Match.rd b1 (pp + k) == 58) with
+            | none => simp only [Option.map_none, Option.getD_none]; exact ⟨by first | trivial | rfl, h⟩
+            | some k =>
+              have hk := List.mem_of_find?_eq_some hf
+              simp only [List.mem_reverse, List.mem_range] at hk
+              simp only [Option.map_some, Option.getD_some]
+              have hk0 : ((k + 1 == 0) = true) = False := by simp
+              simp only [hk0, ↓reduceIte]
+              by_cases h4 : cur.1 < k + 1
+              · simp only [h4, ↓reduceIte]; exact ⟨by first | trivial | rfl, h⟩
+              · simp only [h4, ↓reduceIte]
+                have e4 : (List.range (k + 1)).map (fun j => Match.rd b2 (pp + j)) =
+                    (List.range (k + 1)).map (fun j => Match.rd b1 (pp + j)) := by
+                  apply List.map_congr_left
+                  intro j hj
+                  simp only [List.mem_range] at hj
+                  exact (h.mrd (by omega)).symm
+                rw [e4]
+                refine ⟨by first | trivial | rfl, ?_⟩
+                apply h.store
+                simp only [List.length_map, List.length_range]
+                omega
+
+/-! ## the message unit: the data token lies inside the consumed part -/
+
+section
+open ScpiVerif.Lemmas.Lexer ScpiVerif.Parser ScpiVerif.Spec
+
+theorem allDataLoop_tok (buf : Bytes) (pos0 : Nat) : ∀ (fuel pos : Nat) (tlen result cnt : Int),
+    pos ≤ buf.length → buf.length - pos + 1 ≤ fuel → (pos0 : Int) + tlen + result = pos → 0 ≤ tlen + result →
+    pos0 + (allDataLoop buf fuel pos tlen result cnt).tok.len.toNat ≤ (allDataLoop buf fuel pos tlen result cnt).pos := by
+  intro fuel
+  induction fuel with
+  | zero => intro pos tlen result cnt h1 h2; omega
+  | succ fuel ih =>
+    intro pos tlen result cnt h1 h2 h3 h4
+    rw [unit_loop_step]
+    cases hd : specData (buf.drop (pos + wsLen (buf.drop pos))) with
+    | item n t po pl =>
+      obtain ⟨e1, e2, e3, e4⟩ := unit_pd_item h1 hd
+      have ht := unit_specData_item hd
+      simp only [e3, ht, ne_eq, not_false_eq_true, if_true]
+      split
+      · rename_i hc
+        have hlt := unit_head_lt hc
+        apply ih
+        all_goals omega
+      · simp only [mkTok]; omega
+    | swallow =>
+      obtain ⟨e1, e2, e3, e4⟩ := programData_swallow buf pos h1 hd
+      simp only [e2, ne_eq, not_true_eq_false, if_false, mkTok]
+      simp only [Int.toNat_zero]; omega
+    | none =>
+      obtain ⟨e1, e2, e3⟩ := unit_pd_none h1 hd
+      simp only [e3, ne_eq, not_true_eq_false, if_false, mkTok]
+      simp only [Int.toNat_zero]; omega
+
+theorem parseAll_tok (buf : Bytes) (pos : Nat) (h : pos ≤ buf.length) :
+    (parseAllProgramData buf pos).tok.ptr + (parseAllProgramData buf pos).tok.len.toNat ≤ (parseAllProgramData buf pos).pos := by
+  have := allDataLoop_tok buf pos (buf.length - pos + 2) pos (-1) 1 0 h (by omega) (by omega) (by omega)
+  unfold parseAllProgramData
+  simpa using this
+
+theorem unit_tail_data (buf : Bytes) (hdr data : Token) (n : Int) (p : Nat) :
+    (unit_tail buf hdr (p, data, n)).data = data ∨ (unit_tail buf hdr (p, data, n)).data = mkTok .unknown 0 0 := by
+  unfold unit_tail
+  simp only []
+  generalize (if (lexNewLine buf p).2.2 != 0 then ((lexNewLine buf p).1, (lexNewLine buf p).2.1, (lexNewLine buf p).2.2)
+    else ((lexSemicolon buf (lexNewLine buf p).1).1, (lexSemicolon buf (lexNewLine buf p).1).2.1, (lexSemicolon buf (lexNewLine buf p).1).2.2)) = y
+  by_cases hc : (!iseos buf y.1 && y.2.2 == 0) = true
+  · right; simp only [hc, if_true]
+  · left; simp [hc]
+
+theorem detect_data_inside (s : Bytes) :
+    (detectUnit s).data.ptr + (detectUnit s).data.len.toNat ≤ (detectUnit s).consumed := by
+  have hw0 := unit_wsLen_le s
+  obtain ⟨hl, ht, hh, a1, a2, a3, a4, a5, a6, a7⟩ := unit_header s (wsLen s) hw0
+  have hb1 := unit_ws_bound s (wsLen s + hl) a7
+  have hm : ∃ data n p, detectUnit s = unit_tail s (lexProgramHeader s (wsLen s)).2.1 (p, data, n) ∧
+      p ≤ s.length ∧ data.ptr + data.len.toNat ≤ p := by
+    rw [unit_detect_eq, unit_ws]
+    simp only [List.drop_zero, Nat.zero_add]
+    generalize lexProgramHeader s (wsLen s) = x1 at a1 a2
+    obtain ⟨p1, hdr, hlen⟩ := x1
+    simp only at a1 a2
+    subst a1 a2
+    rw [unit_ws]
+    have hge : ((hl : Int) ≥ 0) := by omega
+    simp only [hge, if_true]
+    by_cases hw : wsLen (s.drop (wsLen s + hl)) > 0
+    · have hw' : ((wsLen (s.drop (wsLen s + hl)) : Nat) : Int) > 0 := by omega
+      simp only [hw', if_true]
+      obtain ⟨c1, c2, c3⟩ := unit_allData s (wsLen s + hl + wsLen (s.drop (wsLen s + hl))) hb1
+      exact ⟨_, _, _, rfl, c3, parseAll_tok s _ hb1⟩
+    · have hw' : ¬ ((wsLen (s.drop (wsLen s + hl)) : Nat) : Int) > 0 := by omega
+      simp only [hw', if_false]
+      exact ⟨_, _, _, rfl, hb1, by simp [mkTok]⟩
+  obtain ⟨data, n, p, e1, e2, e3⟩ := hm
+  rw [e1]
+  have t7 := (unit_tail_spec s (lexProgramHeader s (wsLen s)).2.1 data n p (wsLen s) hl ht e2).2.2.2.2.2.2.1
+  rcases unit_tail_data s (lexProgramHeader s (wsLen s)).2.1 data n p with hd | hd
+  · rw [hd]; omega
+  · rw [hd]; simp [mkTok]
+
+end
+
+/-! ## the unit loop of SCPI_Parse -/
+
+/-- what is carried from one unit to the next -/
+structure SimU (P : Nat) (c1 c2 : Ctx) : Prop where
+  w : SimW P c1 c2
+  out : OutSimU c1.out c2.out
+
+theorem pushError_out (c : Ctx) (code : Int) (info : Option Bytes) (n : Nat) : (pushError c code info n).out = c.out := by
+  rw [pushError_eq]
+
+theorem pushError_simU {P : Nat} {c1 c2 : Ctx} (h : SimU P c1 c2) (code : Int) (info : Option Bytes) (n : Nat) :
+    SimU P (pushError c1 code info n) (pushError c2 code info n) :=
+  ⟨pushError_simW h.w code info n, by rw [pushError_out, pushError_out]; exact h.out⟩
+
+theorem Sim.toU {P : Nat} {c1 c2 : Ctx} (h : Sim P c1 c2) : SimU P c1 c2 := ⟨h.w, h.l.out.toU⟩
+
+theorem findCommand_eq {P : Nat} {c1 c2 : Ctx} (hw : SimW P c1 c2) (off len : Nat) (ho : off ≤ P) :
+    findCommand c2 off len = findCommand c1 off len := by
+  unfold findCommand
+  rw [hw.cmds]
+  apply find?_congr'
+  intro cmd _
+  rw [matchCommand_agree (hw.buf.drop off ho) cmd.pattern len none 0]
+
+/-- the part of one iteration after the header has been composed -/
+def unitCmd (c : Ctx) (base r dptr dlen : Nat) (cur : Nat × Nat) (res : Bool) : Ctx × Option (Nat × Nat) × Bool :=
+  match findCommand c cur.1 cur.2 with
+  | some cmd =>
+    let c := { c with pbase := base + dptr, ppos := base + dptr, plen := dlen,
+                      cur := some cmd, rawOff := cur.1, rawLen := cur.2 }
+    let (c, ok) := processCommand c
+    (c, some cur, res && ok)
+  | none =>
+    let txt := (c.buf.drop base).take r
+    let r2 := (txt.reverse.dropWhile (fun b => b == 13 || b == 10)).length
+    (pushError c (-113) (some (txt.take r2)) r2, some cur, false)
+
+theorem unitCmd_sim {P : Nat} {c1 c2 : Ctx} (h : SimU P c1 c2) (base r dptr dlen : Nat) (cur : Nat × Nat) (res : Bool)
+    (hcur : cur.1 + cur.2 ≤ P) (hd : base + dptr + dlen ≤ P) (hr : base + r ≤ P + 1) :
+    SimU P (unitCmd c1 base r dptr dlen cur res).1 (unitCmd c2 base r dptr dlen cur res).1 ∧
+    Step c1 c2 (unitCmd c1 base r dptr dlen cur res).1 (unitCmd c2 base r dptr dlen cur res).1 ∧
+    (unitCmd c1 base r dptr dlen cur res).2 = (unitCmd c2 base r dptr dlen cur res).2 := by
+  unfold unitCmd
+  rw [findCommand_eq h.w cur.1 cur.2 (by omega)]
+  split
+  · rename_i cmd _
+    have hw : SimW P { c1 with pbase := base + dptr, ppos := base + dptr, plen := dlen, cur := some cmd, rawOff := cur.1, rawLen := cur.2 }
+        { c2 with pbase := base + dptr, ppos := base + dptr, plen := dlen, cur := some cmd, rawOff := cur.1, rawLen := cur.2 } :=
+      ⟨h.w.cmds, h.w.choices, h.w.withInfo, h.w.bufLen, h.w.position, h.w.buf, h.w.inb, h.w.blen, h.w.pos, h.w.regs, h.w.eq⟩
+    have hu : LiveU P { c1 with pbase := base + dptr, ppos := base + dptr, plen := dlen, cur := some cmd, rawOff := cur.1, rawLen := cur.2 }
+        { c2 with pbase := base + dptr, ppos := base + dptr, plen := dlen, cur := some cmd, rawOff := cur.1, rawLen := cur.2 } :=
+      ⟨rfl, rfl, rfl, rfl, rfl, rfl, h.out, hd, hcur⟩
+    obtain ⟨hs, hst, hv⟩ := processCommand_sim hw hu
+    simp only []
+    refine ⟨hs.toU, (Step.of_eq rfl rfl rfl rfl).trans hst, ?_⟩
+    rw [hv]
+  · simp only []
+    have e : (c2.buf.drop base).take r = (c1.buf.drop base).take r := (h.w.buf.window _ _ hr).symm
+    rw [e]
+    exact ⟨pushError_simU h _ _ _, pushError_step h.w _ _ _, by first | trivial | rfl⟩
+
+theorem unitCmd_prev (c : Ctx) (base r dptr dlen : Nat) (cur : Nat × Nat) (res : Bool) :
+    (unitCmd c base r dptr dlen cur res).2.1 = some cur := by
+  unfold unitCmd
+  split <;> rfl
+
+theorem stepUnit_eq (c : Ctx) (base len : Nat) (prev : Option (Nat × Nat)) (res : Bool) :
+    Bounds.stepUnit c base len prev res =
+      if (Parser.detectUnit ((c.buf.drop base).take len)).header.type == .invalid then (pushError c (-101) none, prev, false)
+      else if (Parser.detectUnit ((c.buf.drop base).take len)).header.len > 0 ∧
+              (Parser.detectUnit ((c.buf.drop base).take len)).nParams < 0 then (pushError c (-103) none, prev, false)
+      else if (Parser.detectUnit ((c.buf.drop base).take len)).header.len > 0 then
+        unitCmd { c with buf := (Match.composeCompound c.buf prev (base + (Parser.detectUnit ((c.buf.drop base).take len)).header.ptr,
+                                    (Parser.detectUnit ((c.buf.drop base).take len)).header.len.toNat)).1,
+                         oob := c.oob || !(Match.composeCompound c.buf prev (base + (Parser.detectUnit ((c.buf.drop base).take len)).header.ptr,
+                                    (Parser.detectUnit ((c.buf.drop base).take len)).header.len.toNat)).2.2 }
+          base (Parser.detectUnit ((c.buf.drop base).take len)).consumed
+          (Parser.detectUnit ((c.buf.drop base).take len)).data.ptr (Parser.detectUnit ((c.buf.drop base).take len)).data.len.toNat
+          (Match.composeCompound c.buf prev (base + (Parser.detectUnit ((c.buf.drop base).take len)).header.ptr,
+                                    (Parser.detectUnit ((c.buf.drop base).take len)).header.len.toNat)).2.1 res
+      else (c, prev, res) := by
+  rfl
+
+theorem SimU.setBuf {P : Nat} {c1 c2 : Ctx} (h : SimU P c1 c2) {b1 b2 : Bytes} (ha : Agree P b1 b2)
+    (hl : b1.length = c1.buf.length) (o1 o2 : Bool) :
+    SimU P { c1 with buf := b1, oob := o1 } { c2 with buf := b2, oob := o2 } :=
+  ⟨⟨h.w.cmds, h.w.choices, h.w.withInfo, h.w.bufLen, h.w.position, ha, by rw [hl]; exact h.w.inb,
+    hl.trans h.w.blen, h.w.pos, h.w.regs, h.w.eq⟩, h.out⟩
+
+theorem stepUnit_sim {P : Nat} {c1 c2 : Ctx} (h : SimU P c1 c2) (base len : Nat) (prev : Option (Nat × Nat)) (res : Bool)
+    (hbl : base + len ≤ P) (hprev : ∀ pp pl, prev = some (pp, pl) → pp + pl ≤ base) :
+    SimU P (Bounds.stepUnit c1 base len prev res).1 (Bounds.stepUnit c2 base len prev res).1 ∧
+    Step c1 c2 (Bounds.stepUnit c1 base len prev res).1 (Bounds.stepUnit c2 base len prev res).1 ∧
+    (Bounds.stepUnit c1 base len prev res).2 = (Bounds.stepUnit c2 base len prev res).2 ∧
+    (∀ pp pl, (Bounds.stepUnit c1 base len prev res).2.1 = some (pp, pl) →
+      pp + pl ≤ base + (Parser.detectUnit ((c1.buf.drop base).take len)).consumed) := by
+  have ew : (c2.buf.drop base).take len = (c1.buf.drop base).take len := (h.w.buf.window _ _ (by omega)).symm
+  have hcons : (Parser.detectUnit ((c1.buf.drop base).take len)).consumed ≤ len :=
+    Nat.le_trans (Props.C13.unit_spec _).2.2.2.2.1 (Bounds.window_length_le _ _ _)
+  have hdata := detect_data_inside ((c1.buf.drop base).take len)
+  have hhdr := Bounds.detect_header_inside ((c1.buf.drop base).take len)
+  have hprev' : ∀ pp pl, prev = some (pp, pl) →
+      pp + pl ≤ base + (Parser.detectUnit ((c1.buf.drop base).take len)).consumed := by
+    intro pp pl hh; have := hprev pp pl hh; omega
+  rw [stepUnit_eq, stepUnit_eq, ew]
+  generalize Parser.detectUnit ((c1.buf.drop base).take len) = u at hcons hdata hhdr hprev' ⊢
+  by_cases h1 : (u.header.type == .invalid) = true
+  · simp only [h1, Bool.false_eq_true, if_false, if_true]
+    exact ⟨pushError_simU h _ _ _, pushError_step h.w _ _ _, by first | trivial | rfl, hprev'⟩
+  · simp only [h1, Bool.false_eq_true, if_false, if_true]
+    by_cases h2 : u.header.len > 0 ∧ u.nParams < 0
+    · simp only [h2, and_self, if_false, if_true]
+      exact ⟨pushError_simU h _ _ _, pushError_step h.w _ _ _, by first | trivial | rfl, hprev'⟩
+    · simp only [h2, if_false, if_true]
+      by_cases h3 : u.header.len > 0
+      · simp only [h3, if_false, if_true]
+        have hinv : u.header.type ≠ .invalid := by
+          intro hh; apply h1; rw [hh]; rfl
+        have hin := hhdr hinv h3
+        have hag := composeCompound_agree h.w.buf prev (base + u.header.ptr, u.header.len.toNat)
+          (by simp only; omega) (by intro pp pl hh; have := hprev pp pl hh; simp only; omega)
+        have hci := Bounds.compose_inv c1.buf prev (base + u.header.ptr, u.header.len.toNat) 0
+          (by simp only; omega) (by simp only; omega)
+          (by intro pp pl hh; have := hprev pp pl hh; simp only; omega)
+        generalize Match.composeCompound c1.buf prev (base + u.header.ptr, u.header.len.toNat) = cc1 at hag hci ⊢
+        generalize Match.composeCompound c2.buf prev (base + u.header.ptr, u.header.len.toNat) = cc2 at hag ⊢
+        obtain ⟨b1, cur1, ok1⟩ := cc1
+        obtain ⟨b2, cur2, ok2⟩ := cc2
+        obtain ⟨hag1, hag2⟩ := hag
+        simp only [Prod.mk.injEq] at hag1
+        obtain ⟨hcur, hok⟩ := hag1
+        subst hcur
+        subst hok
+        obtain ⟨_, k2, _, k4⟩ := hci
+        simp only at hag2 k2 k4 ⊢
+        have hsu : SimU P { c1 with buf := b1, oob := c1.oob || !ok1 } { c2 with buf := b2, oob := c2.oob || !ok1 } :=
+          h.setBuf hag2 k2.1 _ _
+        obtain ⟨a1, a2, a3⟩ := unitCmd_sim hsu base u.consumed u.data.ptr u.data.len.toNat cur1 res
+          (by omega) (by omega) (by omega)
+        refine ⟨a1, (Step.of_eq rfl rfl rfl rfl).trans a2, a3, ?_⟩
+        intro pp pl hh
+        rw [unitCmd_prev] at hh
+        cases hh
+        omega
+      · simp only [h3, if_false, if_true]
+        exact ⟨h, Step.refl _ _, by first | trivial | rfl, hprev'⟩
+
+theorem parseLoop_sim {P : Nat} : ∀ (fuel : Nat) (c1 c2 : Ctx) (base len : Nat) (prev : Option (Nat × Nat)) (res : Bool),
+    SimU P c1 c2 → base + len ≤ P → (∀ pp pl, prev = some (pp, pl) → pp + pl ≤ base) →
+    SimU P (parseLoop fuel c1 base len prev res).1 (parseLoop fuel c2 base len prev res).1 ∧
+    Step c1 c2 (parseLoop fuel c1 base len prev res).1 (parseLoop fuel c2 base len prev res).1 ∧
+    (parseLoop fuel c1 base len prev res).2 = (parseLoop fuel c2 base len prev res).2 := by
+  intro fuel
+  induction fuel with
+  | zero =>
+    intro c1 c2 base len prev res h _ _
+    exact ⟨⟨⟨h.w.cmds, h.w.choices, h.w.withInfo, h.w.bufLen, h.w.position, h.w.buf, h.w.inb, h.w.blen, h.w.pos,
+      h.w.regs, h.w.eq⟩, h.out⟩, Step.of_eq rfl rfl rfl rfl, rfl⟩
+  | succ fuel ih =>
+    intro c1 c2 base len prev res h hbl hprev
+    have ew : (c2.buf.drop base).take len = (c1.buf.drop base).take len := (h.w.buf.window _ _ (by omega)).symm
+    obtain ⟨a1, a2, a3, a4⟩ := stepUnit_sim h base len prev res hbl hprev
+    rw [Bounds.parseLoop_succ, Bounds.parseLoop_succ, ew, ← a3]
+    split
+    · obtain ⟨b1, b2, b3⟩ := ih _ _ (base + (Parser.detectUnit ((c1.buf.drop base).take len)).consumed)
+        (len - (Parser.detectUnit ((c1.buf.drop base).take len)).consumed)
+        (Bounds.stepUnit c1 base len prev res).2.1 (Bounds.stepUnit c1 base len prev res).2.2 a1 (by omega) a4
+      exact ⟨b1, a2.trans b2, b3⟩
+    · exact ⟨a1, a2, rfl⟩
+
+theorem writeNewLine_step {o1 o2 : Out} (h : OutSimU o1 o2) :
+    ∃ w k, (writeNewLine o1).written = o1.written ++ w ∧ (writeNewLine o2).written = o2.written ++ w ∧
+      (writeNewLine o1).flushes = o1.flushes + k ∧ (writeNewLine o2).flushes = o2.flushes + k := by
+  have hf : o2.firstOutput = o1.firstOutput := (congrArg Out.firstOutput h).symm
+  unfold writeNewLine
+  rw [hf]
+  split
+  · exact ⟨_, 1, rfl, rfl, rfl, rfl⟩
+  · exact ⟨[], 0, by simp, by simp, rfl, rfl⟩
+
+theorem parse_sim {P : Nat} {c1 c2 : Ctx} (h : SimW P c1 c2) (base len : Nat) (hbl : base + len ≤ P) :
+    SimW P (parse c1 base len).1 (parse c2 base len).1 ∧
+    Step c1 c2 (parse c1 base len).1 (parse c2 base len).1 ∧
+    (parse c1 base len).2 = (parse c2 base len).2 := by
+  unfold parse
+  simp only []
+  have ew : (c2.buf.drop base).take len = (c1.buf.drop base).take len := (h.buf.window _ _ (by omega)).symm
+  rw [ew]
+  have h0 : SimU P
+      (emit { c1 with out := { c1.out with outputCount := 0, firstOutput := true, gCur := [], gItems := [], gUnits := [], gPartial := false } }
+        (.parseMsg ((c1.buf.drop base).take len)))
+      (emit { c2 with out := { c2.out with outputCount := 0, firstOutput := true, gCur := [], gItems := [], gUnits := [], gPartial := false } }
+        (.parseMsg ((c1.buf.drop base).take len))) :=
+    ⟨⟨h.cmds, h.choices, h.withInfo, h.bufLen, h.position, h.buf, h.inb, h.blen, h.pos, h.regs, h.eq⟩, rfl⟩
+  have hst0 : Step c1 c2
+      (emit { c1 with out := { c1.out with outputCount := 0, firstOutput := true, gCur := [], gItems := [], gUnits := [], gPartial := false } }
+        (.parseMsg ((c1.buf.drop base).take len)))
+      (emit { c2 with out := { c2.out with outputCount := 0, firstOutput := true, gCur := [], gItems := [], gUnits := [], gPartial := false } }
+        (.parseMsg ((c1.buf.drop base).take len))) :=
+    ⟨[.parseMsg ((c1.buf.drop base).take len)], [], 0, ⟨rfl, by simp [emit], rfl⟩, ⟨rfl, by simp [emit], rfl⟩⟩
+  obtain ⟨a1, a2, a3⟩ := parseLoop_sim (len + 2) _ _ base len none true h0 hbl (by intro pp pl hh; cases hh)
+  generalize parseLoop (len + 2) (emit { c1 with out := _ } _) base len none true = x1 at a1 a2 a3 ⊢
+  generalize parseLoop (len + 2) (emit { c2 with out := _ } _) base len none true = x2 at a1 a2 a3 ⊢
+  obtain ⟨d1, r1⟩ := x1
+  obtain ⟨d2, r2⟩ := x2
+  simp only at a1 a2 a3 ⊢
+  obtain ⟨w, k, e1, e2, e3, e4⟩ := writeNewLine_step a1.out
+  refine ⟨⟨a1.w.cmds, a1.w.choices, a1.w.withInfo, a1.w.bufLen, a1.w.position, a1.w.buf, a1.w.inb, a1.w.blen, a1.w.pos,
+    a1.w.regs, a1.w.eq⟩, ?_, a3⟩
+  exact (hst0.trans a2).trans ⟨[], w, k, ⟨by simp, e1, e3⟩, ⟨by simp, e2, e4⟩⟩
 
 end ScpiVerif.Lemmas.Isolation
